@@ -67,6 +67,12 @@ template<int B> static void block_adapter_case(const Pattern &p) { hx::run_case(
     be::spmv(scalar(1),Bm,X,scalar(0),Y); Vec yb; for (int I=0;I<nb;++I) for (int r=0;r<B;++r) yb.push_back(Y[I](r)); hx::prove_eq_vec("block adapter: matrix-vector product agrees with the scalar matrix", yb, Sx); }); }
 
 // amg::rebuild(M) with the rows of M in arbitrary order = rebuild with the sorted matrix
+// cpr::partial_update(K) is the second entry point of cpr that accepts a user matrix: the same matrix with row entries in arbitrary order must give the same preconditioner
+template<class P> static void cpr_update_order_case(const Pattern &p, hx::Rng &rng, bool transfer) { hx::CaseOptions co; co.max_paths=16; hx::run_case(std::string("update_row_order/cpr/")+(transfer?"transfer/":"global_only/")+p.name, [&]() { hx::Rng r2(rng.s); SCrs S=hx::ddmatrix(p,r2); int n=p.n; typename P::params prm; prm.block_size=2;
+    SCrs S2=S; for (int i=0;i<n;++i) for (ptrdiff_t k=S.ptr[i];k<S.ptr[i+1];++k) S2.val[k] = S.col[k]==i ? S.val[k] : S.val[k]*scalar(3)/scalar(4);
+    Vec f=hx::sym_vector("f",n); auto act=[&](const SCrs &M, bool &threw) { Vec out; try { P pre(std::tie(n,S.ptr,S.col,S.val),prm); pre.partial_update(std::tie(n,M.ptr,M.col,M.val),transfer); NV F=hx::to_numa(f), X(n,false); for (int i=0;i<n;++i) X[i]=scalar(0); pre.apply(F,X); out=hx::to_vec(X); } catch (const std::runtime_error&) { threw=true; } return out; };
+    bool t0=false; Vec ref=act(S2,t0); hx::require("cpr: partial_update with the sorted matrix does not throw", !t0); if (t0) return;
+    for (int variant=0;variant<3;++variant) { SCrs T=shuffled(S2,r2,variant); bool t1=false; Vec got=act(T,t1); hx::require("cpr: partial_update(M) accepts rows in arbitrary order", !t1); if (t1) continue; hx::prove_eq_vec("cpr: partial_update from rows in arbitrary order acts like partial_update from sorted rows", got, ref); } },co); }
 template<class P, class SetP> static void rebuild_order_case(const std::string &nm, const Pattern &p, hx::Rng &rng, SetP setp) { hx::CaseOptions co; co.max_paths=16; hx::run_case("rebuild_row_order/"+nm+"/"+p.name, [&]() { hx::Rng r2(rng.s); SCrs S=hx::ddmatrix(p,r2); int n=p.n; typename P::params prm; setp(prm); prm.allow_rebuild=true;
     SCrs S2=S;   // the matrix handed to rebuild(): same pattern, off-diagonal values scaled by 3/4
     for (int i=0;i<n;++i) for (ptrdiff_t k=S.ptr[i];k<S.ptr[i+1];++k) S2.val[k] = S.col[k]==i ? S.val[k] : S.val[k]*scalar(3)/scalar(4);
@@ -77,7 +83,7 @@ template<class P, class SetP> static void rebuild_order_case(const std::string &
 int main(int argc, char **argv) {
     hx::parse_args(argc,argv); bool T=hx::thorough(); hx::Rng rng(hx::args().seed);
     hx::encodes("adapter/crs_tuple.hpp (tuple of ranges with index types int/long/unsigned/size_t/ptrdiff_t, iterator ranges), adapter::zero_copy / zero_copy_direct, adapter::make_matrix (crs_builder), adapter::reorder (reordered_matrix, forward/inverse, cuthill_mckee), adapter::scale_diagonal / scaled_problem, crs(const Matrix&)");
-    hx::encodes("amg, relaxation::as_preconditioner, preconditioner::dummy, cpr, schur_pressure_correction constructed from matrices with shuffled rows");
+    hx::encodes("amg, relaxation::as_preconditioner, preconditioner::dummy, cpr, schur_pressure_correction constructed from matrices with shuffled rows; amg::rebuild and cpr::partial_update with shuffled rows");
     hx::assume_note("adapter cases: all values symbolic, patterns enumerated; exact inner solve by skyline LU for reorder / scaled_problem; scaled_problem assumes a positive diagonal");
     hx::assume_note("NOT covered: Eigen, uBlas and Epetra adapters (Eigen expression templates at a symbolic scalar / packages not installed)");
     std::vector<Pattern> ps; for (uint64_t k=0;k<16;++k) ps.push_back(hx::mask_pattern(2,2,k,false)); for (int k=0;k<(T?60:16);++k) ps.push_back(hx::mask_pattern(3,3,rng.next()%512,false)); ps.push_back(hx::band_pattern(4,1));
@@ -90,7 +96,7 @@ int main(int argc, char **argv) {
     typedef amgcl::make_solver<amgcl::relaxation::as_preconditioner<BE,amgcl::relaxation::ilu0>,amgcl::solver::preonly<BE>> IS; typedef amgcl::preconditioner::schur_pressure_correction<IS,IS> S1;
     for (auto &p : std::vector<Pattern>{hx::grid_pattern(3,2),hx::band_pattern(6,1),hx::grid_pattern(2,2)}) { auto ce=[](auto &prm){ prm.coarse_enough=2; }; order_case<A1>("amg<smoothed_aggregation,spai0>",p,rng,ce,false); order_case<A2>("amg<ruge_stuben,gauss_seidel>",p,rng,ce,false); order_case<A3>("amg<aggregation,ilu0>",p,rng,ce,false);
         order_case<R1>("as_preconditioner<ilu0>",p,rng,[](auto&){},false); order_case<R2>("as_preconditioner<gauss_seidel>",p,rng,[](auto &q){ q.serial=true; },false); order_case<D1>("dummy",p,rng,[](auto&){},false);
-        if (p.n%2==0) { order_case<C1>("cpr",p,rng,[](auto &q){ q.block_size=2; },false); order_case<S1>("schur_pressure_correction",p,rng,[&](auto &q){ q.pmask.assign(p.n,0); for (int i=0;i<p.n;i+=2) q.pmask[i]=1; },false); } }
+        if (p.n%2==0) { cpr_update_order_case<C1>(p,rng,true); cpr_update_order_case<C1>(p,rng,false); order_case<C1>("cpr",p,rng,[](auto &q){ q.block_size=2; },false); order_case<S1>("schur_pressure_correction",p,rng,[&](auto &q){ q.pmask.assign(p.n,0); for (int i=0;i<p.n;i+=2) q.pmask[i]=1; },false); } }
     for (auto &p : std::vector<Pattern>{hx::grid_pattern(3,2),hx::band_pattern(6,1)}) { auto ce=[](auto &prm){ prm.coarse_enough=2; }; rebuild_order_case<A3>("amg<aggregation,ilu0>",p,rng,ce); rebuild_order_case<A1>("amg<smoothed_aggregation,spai0>",p,rng,ce); rebuild_order_case<A2>("amg<ruge_stuben,gauss_seidel>",p,rng,ce); }
     for (int k=0;k<(T?40:12);++k) { block_adapter_case<2>(hx::random_pattern(4,4,rng,1+k%3,k%2==0)); if (k%3==0) block_adapter_case<2>(hx::random_pattern(4,6,rng,2,false)); if (k%4==0) block_adapter_case<3>(hx::random_pattern(6,6,rng,2+k%2,true)); }
     for (auto &p : std::vector<Pattern>{hx::band_pattern(3,1),hx::dense_pattern(3,3)}) { order_case<R1>("as_preconditioner<ilu0> (symbolic matrix)",p,rng,[](auto&){},true); order_case<A1>("amg<smoothed_aggregation,spai0> (symbolic matrix)",p,rng,[](auto &prm){ prm.coarse_enough=1; },true); }
